@@ -73,6 +73,9 @@ def operand_table(op, field):
     return None, False
 
 
+NOTHROW = set()
+
+
 class Body:
     def __init__(self, blk, optypes):
         self.b = blk
@@ -171,6 +174,8 @@ class Body:
         # exceptional edges
         self.exc = {}
         for i in self.ins:
+            if i["op"] in NOTHROW:
+                continue
             h = self.handler_for(i["pc"])
             if h is not None and self.b["handlers"][h][1] in starts:
                 self.exc[i["pc"]] = h
@@ -204,7 +209,31 @@ class Body:
             prev = i
         return sites
 
-    def smt(self, repair_sites=()):
+    def early_exit_region(self):
+        """Known finding `handler-entered-below-count`: pcs reachable (normal edges, same innermost handler, no
+        environment push in between) from a PopEnvironment that lies inside a handler range: the early-exit
+        sequences (`PopEnvironment; IteratorReturn; ...; Return/Jump`) the compiler emits for return/break/continue
+        out of a for-of/for-in body with a per-iteration environment, still inside the iterator-close handler."""
+        region = set()
+        for i in self.ins:
+            if i["op"] != "PopEnvironment":
+                continue
+            h = self.handler_for(i["pc"])
+            if h is None:
+                continue
+            work = [t for t, _ in self.succ.get(i["pc"], [])]
+            while work:
+                pc = work.pop()
+                if pc in region or self.handler_for(pc) != h:
+                    continue
+                op = self.by_pc[pc]["op"]
+                if op in ("PushScope", "PushObjectEnvironment"):
+                    continue
+                region.add(pc)
+                work += [t for t, _ in self.succ.get(pc, [])]
+        return region
+
+    def smt(self, repair_sites=(), relax_region=()):
         """SMT-LIB text (between push/pop) + list of named assertions.  `repair_sites`: pcs of short-circuit jumps
         whose JUMP edge is modelled as also popping the binding reference (used only to decide whether a body's
         sole problem is the listed known finding)."""
@@ -220,7 +249,9 @@ class Body:
             names[key] = (nm, text)
             L.append("(assert (! %s :named %s))" % (fml, key))
 
-        named("entry", "(and (>= base 0) (<= base 2) (= e0 base) (= b0 0))" if 0 in reach else "false", "entry depths: env=base∈[0,2], bind=0")
+        base = 1 if self.b.get("has_function_scope") else 0
+        named("entry", ("(and (= base %d) (= e0 base) (= b0 0))" % base) if 0 in reach else "false",
+              "entry depths: env=%d (function-scope environment pushed by the call prologue: %s), bind=0" % (base, bool(base)))
         for pc in reach:
             i = self.by_pc[pc]
             de, db = model.DELTA.get(i["op"], (0, 0))
@@ -241,6 +272,8 @@ class Body:
                 # environment_count is relative to env_fp (the function-scope environment the VM pushes in the call
                 # prologue is counted by the compiler: entry depth `base` is 1 for such bodies)
                 fm = "(and (= e%d %d) (>= e%d %d))" % (e, c, pc, c)
+                if pc in relax_region:
+                    fm = "(= e%d %d)" % (e, c)
                 if s in reach:
                     fm = "(and %s (= b%d b%d) (>= b%d b%d))" % (fm, e, s, pc, s)
                 named("handler-edge@%d->%d" % (pc, e), fm,
@@ -318,7 +351,7 @@ def two_paths(body, pc):
     return pred
 
 
-def check_blocks(blocks, optypes, z3, cvc5, rnd, stats, program_index, program_src, findings, tier, kf_leak=False):
+def check_blocks(blocks, optypes, z3, cvc5, rnd, stats, program_index, program_src, findings, tier, kf_leak=False, kf_below=False):
     for blk in blocks:
         body = Body(blk, optypes)
         smt, names, nreach = body.smt()
@@ -347,10 +380,11 @@ def check_blocks(blocks, optypes, z3, cvc5, rnd, stats, program_index, program_s
                                          "handlers": len(body.b["handlers"]), "assertions": len(names), "verdict": "sat", "base": core})
             continue
         stats["unsat"] += 1
-        if kf_leak:
-            sites = body.known_leak_sites()
-            if sites:
-                smt2, names2, _n = body.smt(repair_sites=sites)
+        if kf_leak or kf_below:
+            sites = body.known_leak_sites() if kf_leak else set()
+            region = body.early_exit_region() if kf_below else set()
+            if sites or region:
+                smt2, names2, _n = body.smt(repair_sites=sites, relax_region=region)
                 r3, core3, err3 = z3.check(smt2, True)
                 r4, _c4, err4 = cvc5.check(smt2, False)
                 stats["cross_checked"] += 1
@@ -358,6 +392,13 @@ def check_blocks(blocks, optypes, z3, cvc5, rnd, stats, program_index, program_s
                     stats["errors"].append("program %d block %d (repaired): z3=%s cvc5=%s" % (program_index, blk["id"], r3, r4))
                     continue
                 if r3 == "sat":
+                    # attribute: which relaxation was needed?
+                    if sites and region:
+                        ra, _ca, _ea = z3.check(body.smt(repair_sites=sites)[0], False)
+                        which = "leak" if ra == "sat" else "below"
+                    else:
+                        which = "leak" if sites else "below"
+                    stats["kf_" + which] = stats.get("kf_" + which, 0) + 1
                     stats["known_finding_bodies"] += 1
                     if len(stats["known_finding_samples"]) < 5:
                         stats["known_finding_samples"].append(program_src[:200])
@@ -385,12 +426,15 @@ def engine(pid, tier, seed, verdict, ev, only):
         verdict["inconclusive"].append("C03(b): " + err)
         return
     optypes = optypes_from_source()
+    NOTHROW.clear()
+    NOTHROW.update(model.cannot_throw())
     # ---- corpus
     progs = []
     snippets = corpus.repo_snippets()
     progs += [("repo-test", s) for s in snippets]
     depth = 1 if tier == "quick" else 3
     progs += [("grammar-d%d" % depth, s) for s in corpus.enumerate_programs(depth)]
+    progs += [("scopes-d%d" % depth, s) for s in corpus.scope_programs(1 if tier == "quick" else 3)]
     progs += [("seeded-%d" % seed, s) for s in corpus.seeded_programs(seed, 300 if tier == "quick" else 6000)]
     # programs listed in known findings / replays are always part of the corpus
     res, rc = run_driver(binary, [p for _, p in progs], "%s-%s" % (pid, tier))
@@ -399,6 +443,7 @@ def engine(pid, tier, seed, verdict, ev, only):
         return
     known_all = json.load(open(os.path.join(VERIF, "known_findings.json")))["findings"]
     kf_leak = any(f["property"] == pid and f.get("key") == "logical-assign-locator-leak" for f in known_all)
+    kf_below = any(f["property"] == pid and f.get("key") == "handler-entered-below-count" for f in known_all)
     # the canonical witness of the listed finding is always part of the corpus
     progs.append(("known-finding-witness", "var i; var v; v = 'x' + (i ??= 3);"))
     z3 = Solver(["z3", "-in"], "z3")
@@ -423,7 +468,7 @@ def engine(pid, tier, seed, verdict, ev, only):
             continue
         stats["programs_ok"] += 1
         by_origin[origin] = by_origin.get(origin, 0) + 1
-        check_blocks(d["blocks"], optypes, z3, cvc5, rnd, stats, i, src, findings, tier, kf_leak=kf_leak)
+        check_blocks(d["blocks"], optypes, z3, cvc5, rnd, stats, i, src, findings, tier, kf_leak=kf_leak, kf_below=kf_below)
     z3.close()
     cvc5.close()
     stats["unchecked_operands"] = sorted(stats["unchecked_operands"])
@@ -468,8 +513,10 @@ def engine(pid, tier, seed, verdict, ev, only):
         "smt_assertions": stats["assertions"], "bodies_sat": stats["sat"], "bodies_unsat": stats["unsat"],
         "disagreements_checked": stats["cross_checked"], "unchecked_operands": stats["unchecked_operands"],
         "known_finding_bodies": stats["known_finding_bodies"], "known_finding_samples": stats["known_finding_samples"],
+        "known_finding_bodies_by_key": {"logical-assign-locator-leak": stats.get("kf_leak", 0), "handler-entered-below-count": stats.get("kf_below", 0)},
         "states": stats["reachable_instructions"], "transitions": stats["edges"], "traces_validated_against_impl": 0,
         "delta_table": {k: list(v) for k, v in model.DELTA.items()},
+        "opcodes_without_error_path": sorted(NOTHROW),
     })
 
 
